@@ -557,6 +557,8 @@ def drive(mod, tier, seed, replay=None):
             break
         try:
             obs = mod.run_impl(c)
+        except Exception as e:      # the runner itself failed on this tree (e.g. an internal it inspects has changed shape): an observation like any other
+            obs = ('err', 'Other:harness:' + type(e).__name__ + ':' + str(e)[:80])
         finally:
             reset_options()
         observed.append(obs)
@@ -566,16 +568,25 @@ def drive(mod, tier, seed, replay=None):
     fails = []          # (index, message)
     nontriv = set()
     for i, (c, obs) in enumerate(zip(cases, observed)):
-        msg = mod.oracle(c, obs)
+        try:
+            msg = mod.oracle(c, obs)
+        except Exception as e:      # an oracle that cannot judge an observation must not pass silently, nor stop the check
+            msg = f'the oracle could not judge the observation {str(obs)[:200]} of case {str(c)[:200]}: {type(e).__name__}: {e}'
         if msg:
             fails.append((i, msg))
-        if mod.nontrivial(c, obs):
+        try: nt = mod.nontrivial(c, obs)
+        except Exception: nt = False
+        if nt:
             nontriv.add(json.dumps([c.get(k) for k in sorted(c) if not k.startswith('_')], sort_keys=True, default=str))
     # 5. correspondence: model vs implementation
     terms, term_idx = [], []
     esc_skipped = 0
     for i, (c, obs) in enumerate(zip(cases, observed)):
-        t = mod.coq_check(c, obs)
+        try:
+            t = mod.coq_check(c, obs)
+        except Exception as e:      # the observation cannot even be rendered for the model (its shape changed): model and implementation differ here
+            t = 'false'
+            out.log.setdefault('unrenderable_observations', []).append(f'{type(e).__name__}: {str(e)[:120]} for case {str(c)[:160]}')
         if t is not None:
             if escalated and i >= n_base and len(t) > 3000:
                 esc_skipped += 1; continue        # escalated cases on long data: implementation + oracle only (the model evaluation is quadratic)
@@ -644,7 +655,10 @@ def drive(mod, tier, seed, replay=None):
             out.add_violation(msg + ' (found by search after: ' + broken[0][:200] + ')', {'case': c, 'observed': obs, 'broken': broken}, True)
         else:
             # name what no longer checks; keep the diverging cases (full) so that the divergence itself replays
-            div_payload = [{'case': cases[i], 'observed': observed[i], 'model_term': mod.coq_check(cases[i], observed[i])} for i in diverging[:5]]
+            def _term(i):
+                try: return mod.coq_check(cases[i], observed[i])
+                except Exception as e: return f'(not renderable: {type(e).__name__}: {e})'
+            div_payload = [{'case': cases[i], 'observed': observed[i], 'model_term': _term(i)} for i in diverging[:5]]
             out.add_violation('; '.join(b[:300] for b in broken[:3]), {'broken': broken, 'diverging_cases': div_payload}, False)
 
     samples = []
